@@ -1,14 +1,42 @@
-(* C04 - d-separation verdicts equal true m-separation in the mixed graph. *)
+(* C04 - d-separation verdicts equal true m-separation in the mixed graph.
+   Model: Graph/DSep.v [are_d_separated] (moralisation of the ancestral graph, as conditional_independencies.py does it).
+   Specifications: Graph/DSep.v [d_separated_spec] - textbook, path form: no simple path in the skeleton of the DAG that
+   replaces every bidirected edge by an unobserved common parent is active (collider = ancestor of C, non-collider
+   outside C); Graph/MSep.v [m_connected] - walk form, for any mixed graph. *)
 From Coq Require Import List Bool.
-From Y0 Require Import Base.ListSet Graph.MixedGraph Graph.DSep Proofs.DSepP.
+From Y0 Require Import Base.ListSet Graph.MixedGraph Graph.DSep Graph.MSep
+  Proofs.DSepP Proofs.MSepP Proofs.MSepSymP Proofs.MSepLatP Proofs.DSepFullP.
 Import ListNotations.
 
-(* Full statement of the property (kept visible; see DESIGN.md for what is proved of it). *)
-Definition C04_statement : Prop :=
-  forall (g : mg nat) a b C, wf g -> is_acyclic g = true ->
-    In a (nodes g) -> In b (nodes g) -> a <> b -> incl C (nodes g) -> ~ In a C -> ~ In b C ->
-    are_d_separated g a b C = DOk (d_separated_spec g a b C) /\
-    are_d_separated g a b C = are_d_separated g b a C.
+(* The full statement of the property, proved: on every well-formed acyclic directed mixed graph, for all nodes a, b
+   outside the conditioning set C, the verdict is the textbook d-separation in the latent DAG. *)
+Theorem C04_verdict_is_textbook_d_separation_in_the_latent_dag (g : mg nat) a b C :
+  wf g -> is_acyclic g = true ->
+  In a (nodes g) -> In b (nodes g) -> incl C (nodes g) -> ~ In a C -> ~ In b C ->
+  are_d_separated g a b C = DOk (d_separated_spec g a b C).
+Proof. exact (dsep_equals_textbook g a b C). Qed.
+
+(* For every mixed graph, cyclic ones included: 'separated' exactly when no active walk joins a and b given C. *)
+Theorem C04_verdict_is_m_separation (g : mg nat) a b C :
+  In a (nodes g) -> In b (nodes g) -> incl C (nodes g) -> ~ In a C -> ~ In b C ->
+  exists s, are_d_separated g a b C = DOk s /\ (s = true <-> ~ m_connected g C a b).
+Proof. exact (are_d_separated_correct g a b C). Qed.
+
+(* m-connection in the mixed graph is d-connection in the DAG with one unobserved common parent per bidirected edge *)
+Theorem C04_m_connection_is_d_connection_in_the_latent_dag (g : mg nat) a b C :
+  wf g -> In a (nodes g) -> incl C (nodes g) -> In b (nodes g) ->
+  (m_connected g C a b <-> m_connected (lat g) C a b).
+Proof. intros Hw Ha HC Hb. exact (m_connected_lat g Hw a C Ha HC b Hb). Qed.
+
+(* the verdict, errors included, is symmetric in the two nodes - every graph, every input *)
+Theorem C04_symmetric (g : mg nat) a b C : are_d_separated g a b C = are_d_separated g b a C.
+Proof. exact (are_d_separated_sym g a b C). Qed.
+
+(* the verdict depends only on the SETS of nodes, directed edges, bidirected edges (either orientation) and conditions:
+   not on the order of insertion *)
+Theorem C04_independent_of_insertion_order (g h : mg nat) a b C C' :
+  same_graph g h -> (forall v, In v C <-> In v C') -> are_d_separated g a b C = are_d_separated h a b C'.
+Proof. exact (are_d_separated_same g h a b C C'). Qed.
 
 Theorem C04_keyerror_exactly_on_unknown_nodes (g : mg nat) a b C :
   are_d_separated g a b C = DKeyError <-> ~ (In a (nodes g) /\ In b (nodes g) /\ incl C (nodes g)).
@@ -25,12 +53,18 @@ Theorem C04_old_code_refuted :
     is_acyclic g = true /\ are_d_separated_old g a b C = DOk true /\ d_separated_spec g a b C = false.
 Proof. exact dsep_old_refuted. Qed.
 
-(* bounded instance of the statement: all 512 edge configurations on three nodes *)
-Theorem C04_partial_bounded_3_nodes :
-  forall g t, In g small_graphs -> is_acyclic g = true -> In t triples3 -> agrees g t = true.
-Proof. exact dsep_agrees_bounded_3. Qed.
+(* the hypotheses are satisfiable and both verdicts occur: Z -> X -> Y with X <-> Y (Z=0, X=1, Y=2) *)
+Example C04_not_vacuous :
+  let g := MG [0; 1; 2] [(0, 1); (1, 2)] [(1, 2)] in
+  wfb g = true /\ is_acyclic g = true /\
+  are_d_separated g 0 2 [1] = DOk false /\ are_d_separated (MG [0; 1; 2] [(0, 1); (1, 2)] []) 0 2 [1] = DOk true.
+Proof. vm_compute. auto. Qed.
 
+Print Assumptions C04_verdict_is_textbook_d_separation_in_the_latent_dag.
+Print Assumptions C04_verdict_is_m_separation.
+Print Assumptions C04_m_connection_is_d_connection_in_the_latent_dag.
+Print Assumptions C04_symmetric.
+Print Assumptions C04_independent_of_insertion_order.
 Print Assumptions C04_keyerror_exactly_on_unknown_nodes.
 Print Assumptions C04_total_on_valid_input.
 Print Assumptions C04_old_code_refuted.
-Print Assumptions C04_partial_bounded_3_nodes.
